@@ -38,6 +38,7 @@ pub fn answer_kind(kind: &str, lines: &[String], replies: &[String]) -> String {
         "listdel" => oracle_listdel(lines),
         "saveload" => oracle_saveload(lines),
         "noslots" => oracle_noslots(lines, replies),
+        "stopcont" => oracle_stopcont(lines, replies),
         "samesession" => {
             // two sessions (separated by a line "----"), every line typed in turn: the transcripts are equal
             let i = lines.iter().position(|l| l == "----").unwrap_or(lines.len());
@@ -270,12 +271,15 @@ pub fn gen_c14<W: Write>(w: &mut W, tier: &str, seed: u64) {
         // every referencing form and some non-ASCII text
         let first = p.lines[0].0;
         let some = p.lines[rng.below(p.lines.len())].0;
-        let extra = match rng.below(8) {
+        let extra = match rng.below(11) {
             0 => format!("PRINT \"é日本\":GOTO {}", some),
             1 => format!("IF A THEN {} ELSE {}", first, some),
             2 => format!("ON X GOSUB {},{}", first, some),
             3 => format!("RESTORE {}:RESTORE", some),
             4 => format!("IF 0 THEN LIST {}-{}:DELETE {}", first, some, some),
+            7 => format!("IF 0 THEN LIST {}:PRINT \"after\"", some),
+            8 => format!("IF 0 THEN DELETE {} ELSE {}", some, first),
+            9 => format!("IF 0 THEN LIST:GOTO {}", some),
             5 => format!("IF 0 THEN RUN {}", first),
             6 => format!("IF 0 GOTO {}", some),
             _ => "REM goto 10".to_string(),
@@ -737,6 +741,14 @@ pub fn gen_c01<W: Write>(w: &mut W, tier: &str, seed: u64) {
         (vec!["0 N=N+1:IF N>3 THEN END", "10 PRINT N;", "20 ON 1 GOTO 0"], " 1  2  3 \nREADY.\n"),
         (vec!["0 N=N+1:IF N>2 THEN PRINT \"R\":RETURN", "10 PRINT N;", "20 ON 2 GOSUB 30,0", "25 END", "30 PRINT \"WRONG\""], " 1  2 R\nREADY.\n"),
         (vec!["0 DATA 7", "10 READ A:PRINT A;", "20 K=K+1:IF K<2 THEN RESTORE 0:GOTO 10"], " 7  7 \nREADY.\n"),
+        // FOR evaluates the start, then the limit, then the step: of two failing expressions the earlier one reports
+        (vec!["10 DIM A(2)", "20 FOR I=1 TO A(5) STEP CHR$(1)+1", "30 PRINT I", "40 NEXT I"], "?SUBSCRIPT OUT OF RANGE IN 20\nREADY.\n"),
+        (vec!["10 DIM A(2)", "20 FOR I=1 TO CHR$(1)+1 STEP A(5)", "30 PRINT I", "40 NEXT I"], "?TYPE MISMATCH IN 20\nREADY.\n"),
+        (vec!["10 DIM A(2)", "20 FOR I=A(7) TO CHR$(1)+1 STEP 1/0%", "40 NEXT I"], "?SUBSCRIPT OUT OF RANGE IN 20\nREADY.\n"),
+        (vec!["20 FOR I=1 TO 2 STEP \"x\"+1", "40 NEXT I"], "?TYPE MISMATCH IN 20\nREADY.\n"),
+        // the limit and the step are evaluated once, after the variable was assigned
+        (vec!["10 L=3:S=-1", "20 FOR I=9 TO L STEP S*2:L=0:S=5:PRINT I;:NEXT I", "30 FOR J=1 TO 2:FOR K=1 TO 2:PRINT J*10+K;:NEXT K,J:PRINT J;K"], " 9  7  5  3  11  12  21  22  3  3 \nREADY.\n"),
+        (vec!["10 I=5:FOR I=1 TO I+1:PRINT I;:NEXT"], " 1  2 \nREADY.\n"),
     ];
     for (prog, expected) in zero {
         let mut v = vec![hex(expected)];
@@ -1356,6 +1368,24 @@ pub fn gen_c02<W: Write>(w: &mut W, tier: &str, seed: u64) {
             }
         }
     }
+    // assignment to an Integer variable (and CINT) floors a Single or Double and raises OVERFLOW exactly
+    // when the floor lies outside -32768..32767
+    for v in ["32767.25", "32767.5", "32767.75", "32766.5", "32768", "32768.5", "-32768", "-32768.25", "-32768.5", "-32767.5", "-32769", "0.5", "-0.5", "-0.25", "1.999", "-1.001", "99999", "-99999"] {
+        let x: f64 = v.parse().unwrap();
+        let f = x.floor();
+        for suffix in ["!", "#"] {
+            // the value as that type holds it (7 significant digits suffice for these Singles)
+            let held = if suffix == "!" { (x as f32) as f64 } else { x };
+            let f = if suffix == "!" { held.floor() } else { f };
+            let ok = (-32768.0..=32767.0).contains(&f);
+            let lit = if v.starts_with('-') { format!("({}{})", v, suffix) } else { format!("{}{}", v, suffix) };
+            let expected = if ok { format!("{}{}\nREADY.\n", show(f as i64), show(f as i64)) } else { "?OVERFLOW\nREADY.\n".to_string() };
+            emit(w, "C02", "expectdirect", &[hex(&expected), format!("A%={}:PRINT A%;CINT({})", lit, lit)], &[]);
+            let expected2 = if ok { format!("{}\nREADY.\n", show(f as i64)) } else { "?OVERFLOW\nREADY.\n".to_string() };
+            emit(w, "C02", "expectdirect", &[hex(&expected2), format!("DEFINT K:K={}:PRINT K", lit)], &[]);
+            emit(w, "C02", "expectdirect", &[hex(&expected2), format!("PRINT {}\\1", lit)], &[]);
+        }
+    }
     // promotion in mixed comparisons: a Single against a Double is compared as Doubles (the Single
     // widened exactly), never the Double narrowed; the same decimal as Single and as Double differ
     let decs = ["0.7", "0.1", "0.3", "1.1", "16777217", "3.3333333333", "123456.789", "1E-7", "0.5", "2", "-0.7", "-16777217", "1E10", "33554433", "0.2", "9.99999999"];
@@ -1738,15 +1768,34 @@ fn oracle_saveload(lines: &[String]) -> String {
         }
     }
     let again: Vec<String> = loaded.lines().map(|l| l.to_string()).collect();
-    if again != saved {
-        let i = saved.iter().zip(again.iter()).position(|(a, b)| a != b).unwrap_or(saved.len().min(again.len()));
-        return fail(format!("after SAVE and LOAD line {} of {} differs: {:?} vs {:?}", i + 1, saved.len(), saved.get(i).map(|s| s.chars().take(60).collect::<String>()), again.get(i).map(|s| s.chars().take(60).collect::<String>())));
+    if again.len() != saved.len() {
+        return fail(format!("after SAVE and LOAD the program has {} lines instead of {}", again.len(), saved.len()));
+    }
+    for (i, (a, b)) in saved.iter().zip(again.iter()).enumerate() {
+        let (la, lb) = (basic::lang::Line::new(a), basic::lang::Line::new(b));
+        if la.number() != lb.number() {
+            return fail(format!("after SAVE and LOAD line {} has another number: {:?} vs {:?}", i + 1, a, b));
+        }
+        match (la.ast(), lb.ast()) {
+            // a line that parses: the listed text is a fixed point and means the same
+            (Ok(x), Ok(y)) => {
+                if a != b {
+                    return fail(format!("after SAVE and LOAD line {} of {} differs: {:?} vs {:?}", i + 1, saved.len(), a.chars().take(70).collect::<String>(), b.chars().take(70).collect::<String>()));
+                }
+                if format!("{:?}", x) != format!("{:?}", y) {
+                    return fail(format!("after SAVE and LOAD line {} parses differently: {:?}", i + 1, a));
+                }
+            }
+            // a line that is rejected stays rejected (its text may be normalised further)
+            (Err(_), Err(_)) => {}
+            _ => return fail(format!("after SAVE and LOAD line {} is accepted in one case and rejected in the other: {:?} vs {:?}", i + 1, a, b)),
+        }
     }
     // and the loaded program is what a fresh interpreter lists
     let mut r2 = Run::new();
     r2.rt.set_listing(loaded, false);
     r2.idle(5000, 10);
-    if r2.listing_text() != saved {
+    if r2.listing_text() != again {
         return fail("the loaded program lists differently".into());
     }
     "ok".into()
@@ -1965,5 +2014,121 @@ pub fn gen_c20_tail<W: Write>(w: &mut W, tier: &str, seed: u64) {
         a.push("----".into());
         a.extend(b);
         emit(w, "C20", "samesession", &a, &[]);
+    }
+}
+
+// ---------------------------------------------------------------------------------------------
+// C13: STOP / END placed anywhere are transparent under CONT
+
+/// payload line 0 = `STOP <n>` or `END <n>`: the statement is inserted as a new line n.  The program with the
+/// extra line, continued with CONT after every stop, prints what the program without it prints (the break
+/// reports and prompts aside) and ends with the same variables.
+fn oracle_stopcont(lines: &[String], replies: &[String]) -> String {
+    let (kind, at) = match lines[0].split_once(' ') {
+        Some((k, n)) => (k.to_string(), n.to_string()),
+        None => return "bad-payload".into(),
+    };
+    let prog = &lines[1..];
+    let (t0, v0, done) = {
+        let mut r = Run::new();
+        r.lines(prog);
+        r.take();
+        r.replies = replies.to_vec();
+        r.rt.enter("RUN");
+        let done = r.idle(5000, 3000);
+        (r.take(), crate::rtproto::show_var_store(r.rt.verif_state().vars), done)
+    };
+    if !done {
+        return "ok".into(); // not a terminating program: outside the oracle
+    }
+    let mut r = Run::new();
+    r.lines(prog);
+    r.line(&format!("{} {}", at, kind));
+    r.take();
+    r.replies = replies.to_vec();
+    r.rt.enter("RUN");
+    let mut total = String::new();
+    if !r.idle(5000, 3000) {
+        return fail("the program with the extra STOP/END does not end although the original does".into());
+    }
+    total.push_str(&r.take());
+    let mut stops = 0;
+    let at_num: u16 = at.parse().unwrap_or(0);
+    loop {
+        // only a stop caused by the inserted statement is continued (the program's own END / STOP / errors end the run)
+        let mine = {
+            let st = r.rt.verif_state();
+            st.cont_pc > 0 && st.program.line_number_for(st.cont_pc - 1) == Some(at_num) && st.cont != "Stopped"
+        };
+        if !mine {
+            break;
+        }
+        r.rt.enter("CONT");
+        if !r.idle(5000, 3000) {
+            return fail("CONT does not return although the original program ends".into());
+        }
+        let t = r.take();
+        if t.starts_with("?CAN'T CONTINUE") {
+            break;
+        }
+        total.push_str(&t);
+        stops += 1;
+        if stops > 400 {
+            return "ok".into(); // a STOP inside a long loop: enough continuations seen
+        }
+    }
+    let brk = format!("?BREAK IN {}", at);
+    let clean = |t: &str| -> String {
+        t.lines().filter(|l| *l != brk && *l != "READY." && !l.starts_with("?CAN'T CONTINUE")).collect::<Vec<_>>().join("").replace(' ', "")
+    };
+    let v1 = crate::rtproto::show_var_store(r.rt.verif_state().vars);
+    if clean(&total) != clean(&t0) {
+        return fail(format!("with {} at line {} and CONT the program printed {:?}, without it {:?}", kind, at, total, t0));
+    }
+    if v0 != v1 {
+        return fail(format!("with {} at line {} and CONT the final variables are {} instead of {}", kind, at, v1, v0));
+    }
+    "ok".into()
+}
+
+pub fn gen_c13_stop<W: Write>(w: &mut W, tier: &str, seed: u64) {
+    let mut rng = Rng::new(seed ^ 0x13C);
+    // fixed: a STOP in a subroutine called from inside loops, in nested loops, after READ, in a function-calling line
+    let fixed: Vec<(Vec<&str>, u32)> = vec![
+        (vec!["10 FOR I=1 TO 2", "20 GOSUB 100", "30 NEXT I", "40 PRINT \"DONE\";I", "50 END", "100 PRINT \"SUB\";I", "120 RETURN"], 110),
+        (vec!["10 FOR I=1 TO 2:FOR J=1 TO 2", "20 GOSUB 100", "30 NEXT J,I", "40 PRINT I;J", "50 END", "100 K=K+1:WHILE K<0:WEND", "120 RETURN"], 110),
+        (vec!["10 WHILE N<3:N=N+1", "20 ON N GOSUB 100,100,200", "30 WEND:PRINT N;S", "50 END", "100 S=S+N", "120 RETURN", "200 S=S*2", "220 RETURN"], 110),
+        (vec!["10 READ A", "30 READ B:PRINT A;B", "40 DATA 1,2"], 20),
+        (vec!["10 DEF FNA(X)=X*2", "30 PRINT FNA(4)"], 20),
+        (vec!["10 FOR I=1 TO 3", "30 PRINT I;", "40 NEXT"], 20),
+        (vec!["10 GOSUB 100:PRINT \"B\"", "20 END", "100 FOR I=1 TO 2", "120 NEXT:RETURN"], 110),
+    ];
+    for (prog, at) in &fixed {
+        for kind in ["STOP", "END"] {
+            let mut v = vec![format!("{} {}", kind, at)];
+            v.extend(prog.iter().map(|l| l.to_string()));
+            emit(w, "C13", "stopcont", &v, &[]);
+        }
+    }
+    let n = if tier == "thorough" { 4_000 } else { 150 };
+    for _ in 0..n {
+        let sz = 1 + rng.below(4);
+        let p = gen_program(&mut rng, sz);
+        let lines: Vec<String> = p.text().into_iter().filter(|l| !l.contains("TRON") && !l.ends_with(" STOP")).collect();
+        if lines.iter().any(|l| l.contains("POS(") || l.contains("CONT")) {
+            continue; // POS reads the column, which the forced line break of the report resets
+        }
+        // every free line number next to a program line, both kinds
+        let mut spots: Vec<u32> = p.lines.iter().map(|(n, _)| n + 1).filter(|n| !p.lines.iter().any(|(m, _)| m == n)).collect();
+        while spots.len() > (if tier == "thorough" { 12 } else { 5 }) {
+            let i = rng.below(spots.len());
+            spots.remove(i);
+        }
+        for at in spots {
+            let kind = if rng.chance(2, 3) { "STOP" } else { "END" };
+            let mut v = vec![format!("{} {}", kind, at)];
+            v.extend(lines.iter().cloned());
+            emit(w, "C13", "stopcont", &v, &p.replies);
+        }
     }
 }
